@@ -271,7 +271,7 @@ Scenario make_c24() {
     s.stub_components = {"OS: threads -> fibers, sockets -> simulated TCP, clock, entropy", "providers are scripted processes; content (manifest + ciphertext) comes from a real transport-less publisher Node"};
     s.assumptions = {"a back-off is judged as: next attempt - dispatch time within [back-off, back-off + 8 s] (the dispatch itself takes simulated time)",
                      "drop conditions are judged two tick periods + 1 s after they became true"};
-    s.rule = "plan = attempt limit, initial/max back-off, success interval, per-provider parallel limit, tick period, chunk TTL, 1..2 providers + 4..22 ops (assigned-fetch announce incl. re-announce, valid chunk reply, provider session drop, reconnect, waits up to 30 s); non-trivial = a fetch was re-announced while in flight, a provider became unreachable, or a back-off after a repeated failure was observed; distinct = plan hash";
+    s.rule = "plan = attempt limit, initial/max back-off, success interval, per-provider parallel limit, tick period, chunk TTL, 1..2 providers + 4..22 ops (assigned-fetch announce incl. re-announce, valid chunk reply, provider session drop, reconnect, waits up to 30 s); non-trivial = a fetch was re-announced while in flight, a provider became unreachable, or a back-off after a repeated failure was observed; distinct = plan hash; `store_local`: the node's own user stores the chunk it is fetching (the fetch must be gone two ticks later and no REQUEST for it may reach a provider after that)";
     s.gen = gen_c24; s.exec = exec_c24; s.kernel_knobs = rig_knobs;
     s.quick_runs = 2500; s.thorough_runs = 100000; s.quick_secs = 55; s.thorough_secs = 900;
     add_swarm_variant(s, 15);
